@@ -142,6 +142,8 @@ def check_obligations(pid):
     prints = re.findall(r"^\s*Print Assumptions\s+(\w+)\s*\.", txt, re.M)
     res["theorems"] = thms
     res["obligations"] = len(thms)
+    if not thms:
+        res["problems"].append("Props/%s.v states no theorem" % pid)
     for t in thms:
         if t not in prints:
             res["problems"].append("theorem %s has no Print Assumptions" % t)
